@@ -836,7 +836,7 @@ pub fn run(a: &Args) {
         }
     }
     rep.distinct_nontrivial = distinct.len() as u64;
-    rep.rule = "evaluations = instantiations + executed calls, each followed by the full set of queries. Per variant (sg721-base, sg721-updatable fresh and migrated-from-base, sg721-metadata-onchain, sg721-nt): scripted histories for duplicate ids / foreign minters / burn and re-mint, two-step ownership hand-over with expiry at t-1,t,t+1 and renounce, every mutating message from creator/minter/token owner/stranger after a collection-info freeze and on a fresh collection, token-metadata update/freeze/enable with fee-1,fee,fee+1 and wrong coins, approvals and operators with expirations at t-1,t,t+1, send to contract/account, instantiation guards (non-contract sender, funds, description 512/513 bytes incl. multi-byte, URL pool), update_collection_info field semantics, admin migrations to the sg721-updatable code (by stranger/minter/admin) between freeze / enable / update operations over a cw2 grid (current and legacy names x versions 0.15.9, 0.16.0, 2.9.9, 3.0.0, 3.0.9, 3.1.0, 3.1.1, 3.2.1, current-1, current, current+1, next major); then random histories of 20-45 calls, ~75% from the role the call needs. Non-trivial = call (distinct by variant, message, sender, funds, outcome and prior observation) that was not rejected merely because the variant's ExecuteMsg lacks the message.".into();
+    rep.rule = "evaluations = instantiations + executed calls, each followed by the full set of queries. Per variant (sg721-base, sg721-updatable fresh and migrated-from-base, sg721-metadata-onchain, sg721-nt): scripted histories for duplicate ids / foreign minters / burn and re-mint, two-step ownership hand-over with expiry at t-1,t,t+1 and renounce, every mutating message from creator/minter/token owner/stranger after a collection-info freeze and on a fresh collection, token-metadata update/freeze/enable with fee-1,fee,fee+1 and wrong coins, approvals and operators with expirations at t-1,t,t+1, send to contract/account, instantiation guards (non-contract sender, funds, description 512/513 bytes incl. multi-byte, URL pool), update_collection_info field semantics, admin migrations to the sg721-updatable code (by stranger/minter/admin) between freeze / enable / update operations over a cw2 grid (current and legacy names x versions 0.15.9, 0.16.0, 2.9.9, 3.0.0, 3.0.9, 3.1.0, 3.1.1, 3.2.1, current-1, current, current+1, next major); each variant's own migrate entry point (same code id) once / twice in a row between freezes, metadata updates, mints and burns over the own-name x version grid; then random histories of 20-45 calls, ~75% from the role the call needs. Non-trivial = call (distinct by variant, message, sender, funds, outcome and prior observation) that was not rejected merely because the variant's ExecuteMsg lacks the message.".into();
     out.write_cases("C09", "From LP Require Import Collection C09Corr.", "c09_case", "c09_check", &coq_cases, 6, &mut rep);
     out.finish(&rep);
     println!("C09 harness: {} evaluations in {} histories, {} monitor violations", rep.evaluations, coq_cases.len(), nviol);
